@@ -360,6 +360,10 @@ def _deque(it, src=None, maxlen=None):
         if isinstance(src, Opaque):
             it.emit(Ev('Drain', src=src, how='deque'))
             return Opaque('deque', 'deque')
+        if isinstance(src, (PyList, tuple)):
+            # a concrete sequence (of iterators, ...): walking it to its end pulls nothing from its elements
+            it.emit(Ev('Drain', src=src, how='deque'))
+            return Opaque('deque', 'deque')
     raise Unsupported('collections.deque(%r, maxlen=%r)' % (src, maxlen))
 
 
